@@ -133,7 +133,9 @@ theorem runAuth_sent (fx : Facts) (a : Authr) (env : Env) (details : Dict) (scri
           · exact onlyChallenges_nil
           · split
             · exact onlyChallenges_nil
-            · exact exchange_sent _ _ _ _ _
+            · split
+              · exact onlyChallenges_nil
+              · exact exchange_sent _ _ _ _ _
 
 theorem authClient_sent (fx : Facts) (rc : RealmCfg) (env : Env) (details : Dict) (script : List Arrival) :
     OnlyChallenges (authClient fx rc env details script).sent := by
